@@ -581,7 +581,12 @@ def walk_class(ctx, prop, base, safe, ix, j, sf, d, c, path):
                                {**rb, "missing": sorted(exp - g), "extra": sorted(g - exp)})
     # ---- members
     own_methods = {f["name"]: f for f in c["methods"]}
-    own_attrs = {a["name"]: a for a in c["attributes"]}
+    # attributes the generator shows: public ones whose type is no type variable; an `attr` member whose name is
+    # also that of a property (shown as `attr` too) cannot be attributed to one of the two
+    prop_names = {f["name"] for f in c["methods"] if f["is_property"]}
+    own_attrs = {a["name"]: a for a in c["attributes"]
+                 if a["is_public"] and not (a["type"] is not None and a["type"]["kind"] == "TypeVarType")
+                 and a["name"] not in prop_names}
     inherited = {}
     if not abstract:
         for a in anc:
@@ -598,10 +603,12 @@ def walk_class(ctx, prop, base, safe, ix, j, sf, d, c, path):
         if counts[nm] > 1 and mem.kind in ("fun", "attr") and prop not in ("C17", "C03", "C04"):
             continue            # emitted twice (private diamond, K17): which source it stands for is undecidable here
         if mem.kind == "class":
-            inner = next((k for k in c["classes"] if k["name"] == nm), None)
-            if inner is None:
-                for a in anc:
-                    inner = inner or next((k for k in a["classes"] if k["name"] == nm), None)
+            # the class's own inner classes come first in the text, those inlined from private ancestors after
+            # them in ancestor order: the k-th member of that name stands for the k-th candidate
+            cands = [k for k in c["classes"] if k["name"] == nm and k["is_public"]]
+            for a in anc:
+                cands += [k for k in a["classes"] if k["name"] == nm]
+            inner = cands[seen[nm] - 1] if seen[nm] - 1 < len(cands) and counts[nm] <= len(cands) else None
             if inner is not None:
                 walk_class(ctx, prop, base, safe, ix, j, sf, mem, inner, path)
             continue
@@ -709,8 +716,32 @@ def check_layout(ctx, base, safe, j, stubs, outside, parsed, files):
         p = "/".join(d + [s["name"].lstrip("_") + ".sdsstub"])
         if p in seen and seen[p] != s["text"]:
             aliased = any(q["alias"] for kv in j["reexport_map"] for m in kv["modules"] for q in m["qualified_imports"])
+            # cause analysis: several declarations of that name which the package of this path re-exports
+            pkg_id = "/".join(d)
+            same = sorted({x["id"] for m in j["modules"] for x in m["classes"] + m["functions"]
+                           if x["name"] == s["name"] and any(r["id"] == pkg_id for r in x["reexported_by"])})
+            # a module stub placed in this directory although no import of the package names that module exactly:
+            # the re-export lookup matches module names by suffix ('from .static import const' moves module deep/const)
+            pkg_mod = next((m for m in j["modules"] if m["id"] == pkg_id), None)
+            here = [s2 for s2 in stubs if not s2["pkg"] and s2["name"] == s["name"]
+                    and "/".join(x for x in s2["dir"].split("/") if x not in ("", ".")) == pkg_id]
+            moved_modules = [m["id"] for m in j["modules"] if here and m["name"] == s["name"]
+                             and m["id"] != pkg_id + "/" + m["name"]]
+            def exact(mid):
+                md = mid.replace("/", ".")
+                if pkg_mod is None:
+                    return False
+                for q in pkg_mod["qualified_imports"]:
+                    qn = q["qualified_name"]
+                    if qn == md or (qn.startswith(".") and pkg_id.replace("/", ".") + qn == md):
+                        return True
+                return False
+            suffix_moved = [m for m in moved_modules if not exact(m)]
             ctx.oracle_failure("C10", f"two different stub texts written to {p!r}",
-                               {**base, "path": p, "names": [s["name"]], "aliased_reexport": aliased})
+                               {**base, "path": p, "names": [s["name"]], "aliased_reexport": aliased,
+                                "same_name_reexports": len(same) > 1, "declarations": same,
+                                "module_moved_by_name_suffix": bool(suffix_moved) and len(same) <= 1,
+                                "moved_modules": suffix_moved})
         seen[p] = s["text"]
     for cls in outside:
         parts = cls.split(".")
